@@ -141,21 +141,26 @@ def run(out, tier, seed):
     out.add_model(res)
     cases = os.path.join(wd, "cases.ndjson")
     n = 0
+    nlong = 300 if tier == "quick" else 1500
+    longs = [json.dumps(random_history(rnd, rnd.randint(30, 120 if tier == "quick" else 300), small=(i % 2 == 1)), separators=(",", ":")) + "\n" for i in range(nlong)]
+    every = max(1, nh * (1 if tier == "quick" else 2) // nlong)
     with open(cases, "w") as f:
         for i, h in enumerate(vlib.read_ndjson(hist)):
             for variant in ((i % 7,) if tier == "quick" else (i % 7, 3 + i % 5)):
                 f.write(json.dumps(from_history(h["hist"], variant), separators=(",", ":")) + "\n")
                 n += 1
-        nlong = 300 if tier == "quick" else 4000
-        for i in range(nlong):
-            f.write(json.dumps(random_history(rnd, rnd.randint(30, 120 if tier == "quick" else 400), small=(i % 2 == 1)), separators=(",", ":")) + "\n")
+                if n % every == 0 and longs:       # the long histories are spread over the file: they cost far more than the short ones
+                    f.write(longs.pop())
+                    n += 1
+        for l in longs:
+            f.write(l)
             n += 1
     obs = os.path.join(wd, "obs.ndjson")
     st = vlib.run_workers("store", cases, n, obs, timeout=60)
     decide(out, obs, n, st, "model: every interleaving of up to %d pushes into 4 blocks x initial sizes {0,1,2} x policies {+1,+2,x2 from non-zero} chosen at first use (refinement to independent tables checked on "
            "every state); replay: %s of the complete histories (%d) as concrete interface operations on BasicGarnishData with exactly those settings, + %d seeded random histories of 30..%d operations "
            "(half with default settings on both stores, half with random small settings on BasicGarnishData); every address returned so far read back after EVERY operation"
-           % (4 if tier == "quick" else 5, "1 in %d" % keep if keep > 1 else "all", nh, nlong, 120 if tier == "quick" else 400))
+           % (4 if tier == "quick" else 5, "1 in %d" % keep if keep > 1 else "all", nh, nlong, 120 if tier == "quick" else 300))
     out.cov["exhaustive"] = True
 
 
